@@ -26,6 +26,7 @@ KEYS = {
     "R3b": ("C16-refmulti-select-bypasses-dictid-check", "with ZSTD_d_refMultipleDDicts the selection of a referenced DDict vouches for whatever dictionary was loaded: the dictID check passes"),
     "R3d": ("C16-refmulti-select-destroys-loaded-dictionary", "decoding a frame that names a referenced DDict destroys the dictionary loaded into the context"),
     "R3e": ("C16-d-maxblocksize-ignored-by-bufferless-decoding", "ZSTD_d_maxBlockSize is not in force for frames decoded with ZSTD_decompressBegin / ZSTD_decompressContinue"),
+    "R3h": ("C16-prefix-used-up-by-failing-frame-start", "a pending prefix is used up by a frame start / single call that fails"),
     "R3c": ("C16-simple-api-leaves-stream-open", "a single-call compression on a context with an open streaming frame leaves the session open"),
 }
 
@@ -106,6 +107,9 @@ def scenarios(env):
             out.append(("R3a", ["new", "dset 0 %d 1" % rm, "drefddict 0 1", "dreset 0 %d" % rs, "%s 0 1" % dec, "dset 0 %d 1" % rm, "drefddict 0 2",
                                 "%s 0 1" % dec, "%s 0 2" % dec, "ddecm 0 2 1 0", "ddecu 0 2 1"]))
     out.append(("R3a", ["new", "dset 0 %d 1" % rm, "drefddict 0 1", "drefddict 0 2", "dreset 0 2", "dset 0 %d 1" % rm, "dload 0 2", "ddec 0 1", "ddec1 0 1", "ddec 0 2"]))
+    # the parameter off, then the reset: the set of referenced DDicts goes all the same
+    out.append(("R3a", ["new", "dset 0 %d 1" % rm, "drefddict 0 1", "dset 0 %d 0" % rm, "dreset 0 2", "dset 0 %d 1" % rm, "drefddict 0 2", "ddec 0 1", "ddec1 0 1", "ddec 0 2"]))
+    out.append(("R3a", ["new", "dset 0 %d 1" % rm, "drefddict 0 2", "drefddict 0 1", "dset 0 %d 0" % rm, "drefddict 0 2", "dreset 0 3", "dset 0 %d 1" % rm, "drefddict 0 2", "ddec1 0 1"]))
     # R3b (round 3): raw dictionary bytes given to a context that references DDicts: the dictID check is not bypassed
     for refs in (["drefddict 0 1"], ["drefddict 0 1", "drefddict 0 2"], ["drefddict 0 2", "dload 0 2"], ["drefddict 0 1", "drefprefix 0 1"]):
         out.append(("R3b", ["new", "dset 0 %d 1" % rm] + refs + ["ddecr 0 2 1", "ddecr 0 1 1", "ddecr 0 0 1", "ddecr 0 1 2", "ddecr 0 2 2", "ddecr 0 0 0", "ddecr 0 1 3", "ddec 0 1"]))
@@ -120,6 +124,13 @@ def scenarios(env):
     for v in (1024, 4095, 4096, 0, 131072):
         out.append(("R3e", ["new", "dset 0 %d %d" % (mb, v), "dfx 0 2", "dfxb 0 2", "dfx 0 0", "dfxb 0 0", "dreset 0 2", "dfxb 0 2"]))
     out.append(("R3e", ["new", "dset 1 %d 2048" % mb, "dfxb 1 2", "dfx 1 2", "dfxb 1 0", "dfxb 1 3", "dfxb 1 1", "dfxb 1 4"]))
+    # R3h (round 3, fixes b15fdb6 / b87b37f found by C02): a failing start keeps the prefix pending, the retry uses it
+    mw = env.did["windowLogMax"]
+    out.append(("R3h", ["new", "dset 0 %d 10" % mw, "drefprefix 0 1", "dfx 0 2", "dset 0 %d 12" % mw, "dfx 0 2", "dfx 0 0"]))
+    out.append(("R3h", ["new", "drefprefix 0 1", "dfx 0 4", "ddec 0 3", "ddec 0 3"]))
+    out.append(("R3h", ["new", "drefprefix 0 2", "ddec1 0 1", "ddec1 0 4", "ddec1 0 4"]))
+    out.append(("R3h", ["new", "drefprefix 0 1", "ddecm 0 3 1 0", "ddec1 0 3", "ddec1 0 0"]))
+    out.append(("R3h", ["new", "dbegin 0", "ddec1 0 0", "dset 0 %d 11" % mw, "dbegin 0", "ddecr 0 1 1", "drefddict 0 1", "ddec 0 1"]))
     # R3c (round 3): ZSTD_compressCCtx in the middle of a streamed frame closes the session
     for tail in (["cbegin 0", "cend 0"], ["cend 0"], ["cset 0 %d 1" % env.cid["checksumFlag"], "cframe 0"], ["cpl 0 200", "cbegin 0", "cbegin 0", "cend 0"]):
         out.append(("R3c", ["new", "cbegin 0", "csimple 0"] + tail))
@@ -320,7 +331,8 @@ def gen_grid2(rng, env, tier, c16):
         for rs in (2, 3):
             for again in ((), (2,), (1,), (2, 1)):
                 for multi2 in (0, 1):
-                    ops = ["new", "dset 0 %d 1" % rm] + ["drefddict 0 %d" % r for r in refs] + ["dreset 0 %d" % rs]
+                    off = rng.random() < 0.5     # the parameter switched off before the reset: the set must go all the same
+                    ops = ["new", "dset 0 %d 1" % rm] + ["drefddict 0 %d" % r for r in refs] + (["dset 0 %d 0" % rm] if off else []) + ["dreset 0 %d" % rs]
                     ops += (["dset 0 %d 1" % rm] if multi2 else []) + ["drefddict 0 %d" % r for r in again]
                     for f in (1, 2, 0):
                         ops += ["%s 0 %d" % (rng.choice(["ddec", "ddec1"]), f)]
@@ -759,6 +771,10 @@ class SessionOracle:
                     return "a parameter reset keeps a dictionary"
                 if t[2] in ("2", "3") and now[3:6] != ["0", "0", "0"]:
                     return "a parameter reset keeps the DDicts referenced for ZSTD_d_refMultipleDDicts (set allocated / members %s)" % now[3:6]
+            if k0 == "dfx" and x0[0] == "1" and cls != "ok" and fmt == "0" and now[0] != "1":
+                kk = int(t[2]) % 5      # G4 names a dictionary (a prefix has no ID), G2 has a 4096-byte window: refused before the frame starts
+                if kk == 4 or (kk == 2 and int(b["vec"][nd]) < 4096):
+                    return "a streamed frame start that failed used up the pending prefix"
             if k0 in ("dset", "dget", "dmaxwin", "dbadcall") and now != x0:
                 return "the dictionary state changed by a parameter call"
             if k0 == "ddecr" and fmt == "0" and not mid:
@@ -786,6 +802,9 @@ class SessionOracle:
                 if need_ok != (cls == "ok"):
                     return "frame %d %s although the context holds uses=%s kind=%s which=%d (refMultipleDDicts=%d, set=%s)" % (
                         f, "decoded" if cls == "ok" else "refused", uses, kind, which, multi, x0[3:6])
-                if uses == "1" and eff == (kind, which) and now[0] != "0":
+                if uses == "1" and cls == "ok" and now[0] != "0":
                     return "a prefix stays usable after the frame it was referenced for (single use)"
+                # round 3 (fixes b15fdb6 / b87b37f / 2f289ec): a call that fails does not use the prefix up, on any of the three doors
+                if uses == "1" and cls != "ok" and now[0] != "1":
+                    return "a %s call that failed used up the pending prefix" % ("ZSTD_decompressDCtx" if k0 == "ddec1" else "whole-frame ZSTD_decompressStream")
         return None
